@@ -83,11 +83,13 @@ theorem gone_specStat {s : St} (hc : Consistent s) {pp : Path} {n : Name} (h : G
       · simp only [Bool.not_eq_true] at hw
         exact absurd (hk.2 (by rw [he]; simp [needsNode, hw])) hn
 
-/-- the tail of `do_rm` for a non-directory: what is left in the upper layer and in the forest -/
-theorem rmFinish_cons {s : St} (hc : Consistent s) (pp : Path) (n : Name) {pm node : MNode}
+/-- the tail of `do_rm` for a non-directory, or for a directory that only lower layers have: what
+    is left in the upper layer and in the forest -/
+theorem rmFinish_cons {s : St} (hc : Consistent s) (pp : Path) (n : Name) (dir : Bool) {pm node : MNode}
     (hpm : s.mem pp = some pm) (hpu : pm.inUpper = true) (hlo : pm.loaded = true)
-    (hnode : s.mem (n :: pp) = some node) (hnw : node.whiteout = false) :
-    Outcome (rmFinish pp n false node pm (!(node.upperLayerOnly && !lowerEntryExists s.disk pm n)) s)
+    (hnode : s.mem (n :: pp) = some node) (hnw : node.whiteout = false)
+    (hdir : dir = true → node.inUpper = false) :
+    Outcome (rmFinish pp n dir node pm (!(node.upperLayerOnly && !lowerEntryExists s.disk pm n)) s)
       (fun _ s' => Consistent s' ∧ Gone pp n s') (fun s' => Consistent s') := by
   have hl := hc.toLocal
   obtain ⟨pr, hpr, hprl, hprp, hpru, _, prest, hpreals⟩ := upper_head hc hpm hpu
@@ -158,6 +160,11 @@ theorem rmFinish_cons {s : St} (hc : Consistent s) (pp : Path) (n : Name) {pm no
   simp only []
   by_cases hnu : node.inUpper = true
   · -- the node has an upper entry: unlink it
+    have hdf : dir = false := by
+      cases dir with
+      | false => rfl
+      | true => have := hdir rfl; rw [hnu] at this; cases this
+    subst hdf
     obtain ⟨r0, _, hl0, hp0, _, hw0, rest0, hr0⟩ := upper_head hc hnode hnu
     have hq_present : (L (n :: pp)).isAbsent = false := by
       have := head_present hc hnode hr0
@@ -280,7 +287,7 @@ theorem doRm_unlink_tail {s : St} (hc : Consistent s) (pp : Path) (n : Name) {pm
         have hq2 : s2.mem (n :: pp) = some node := by
           rw [hcp.frame _ (by simp [isSuffixOf_cons_self])]; exact hnode
         rw [bind_ok (getNode_ok hq2), bind_ok (getNode_ok hpm2), bind_ok (getSt_eval s2)]
-        exact rmFinish_cons hcp.cons pp n hpm2 hpu2 (by rw [hlo2]; exact hlo) hq2 hnw
+        exact rmFinish_cons hcp.cons pp n false hpm2 hpu2 (by rw [hlo2]; exact hlo) hq2 hnw (fun h => by cases h)
   · have hlk : lookupNode pp n s = .err ENOENT s := by
       unfold lookupNode
       rw [bind_ok hls]
